@@ -27,6 +27,13 @@ NoLabels         == [l \in LabelNames |-> ""]
 NumVal  == ("n0" :> 0) @@ ("n1" :> 1) @@ ("n2" :> 2) @@ ("n3" :> 3)
 IsNum(v) == v \in DOMAIN NumVal
 
+(* extension atoms: values that CONTAIN a plain value without being it.  "v1s" = v1 followed by more          *)
+(* characters (v1 is a proper prefix), "pv2" = characters followed by v2 (v2 is a proper suffix), "pv1s" = v1  *)
+(* in the middle.  A label regex (stream matcher, label filter) is matched against the WHOLE value (LogQL /    *)
+(* Prometheus matchers are fully anchored), so a regex atom that matches v1 / v2 does NOT match an extension:  *)
+(* ReMatches is membership in ReVals, whatever the value contains.  Searching the pattern anywhere in the      *)
+(* value, or anchoring only the first / last alternative of a|b, accepts them.                                 *)
+ExtVals == {"v1s", "pv2", "pv1s"}
 (* regex atoms over label values: the set of value atoms matched; R_any is .* (matches the empty value too),   *)
 (* R_some is .+                                                                                                *)
 ReVals == ("R_v1" :> {"v1"}) @@ ("R_v2" :> {"v2"}) @@ ("R_v1v2" :> {"v1", "v2"}) @@ ("R_n" :> {"n1", "n3"})
